@@ -24,6 +24,7 @@ EXPLANATION = (
     "on resets the id cache _sensors_map on every path after the write (or the cache is rebuilt on every lookup); (R4) the single "
     "path (read command at sensor.offset + read_value) and the bulk path (seek + read_value) decode with the same summary. Numerical "
     "equality against a register file is not decided."
+    ' (R5) an id listed twice by sensors() must resolve to the last definition in _get_sensor, as the bulk dictionary does.'
 )
 
 
